@@ -3,6 +3,7 @@ import Heathcliff.Proofs.GenRns11
 import Heathcliff.Proofs.GenRns14
 import Heathcliff.Proofs.GenRns16
 import Heathcliff.Proofs.GenRns19
+import Heathcliff.Proofs.GenRns20
 import Heathcliff.Proofs.C01EW
 
 /-!
@@ -10,6 +11,7 @@ import Heathcliff.Proofs.C01EW
   `RNSTool::new(4, {97, 113}, 17)`, the phase `nv_phase` of a genuine BFV encryption of 3 + 16X + 9X³, a DIRTY destination buffer.
 -/
 namespace HC
+set_option warn.classDefReducibility false
 attribute [local instance] nv_decRnsCanon nv_decWFOp nv_decModWF nv_decModulus nv_decMulOperand nv_decRNSBase
 
 theorem grw_dsr_sizes : nv_tool.prodTGammaModQ.size = nv_tool.baseQ.size ∧ nv_tool.negInvQModTGamma.size = 2 := by
@@ -211,5 +213,30 @@ theorem grw_eca_val : GenR.exact_convey_array (flatP nv_c0) [9, 9, 9, 9] nv_conv
       nv_conv.ibase.base.toList nv_conv.obase.base.toList (limbsOf nv_conv.ibase.size nv_conv.ibase.prod) (nv_conv.matrix.toList.map Array.toList)
       (fun l => exactRound nv_conv l % 2^64) = .ok [16, 3, 9, 3] := by
   rw [grw_eca_eq]; decide +kernel
+
+/-! ### `fast_floor` end to end: Y = (−1, 1363, 2134, −3839) in base q ∪ Bsk (`nv_c0 ++ nv_p2` of NonVac.lean), dirty destination -/
+
+theorem grw_ff_floor : ∃ out, GenR.fast_floor (flatP (nv_c0 ++ nv_p2)) (flatP #[#[9, 9, 9, 9], #[9, 9, 9, 9], #[9, 9, 9, 9]]) nv_tool.baseQ.size nv_tool.baseBsk.size
+      nv_tool.n nv_tool.baseBsk.base.toList nv_tool.invProdQModBsk.toList (gr_convF nv_tool.qToBsk) = .ok out ∧
+    ∀ j, j < nv_tool.n → ∃ alpha : Nat, alpha < nv_tool.baseQ.size ∧ ∀ i, i < nv_tool.baseBsk.size →
+      ((out.getD (i * nv_tool.n + j) 0 : Nat) : Int) = (([-1, 1363, 2134, -3839] : List Int).getD j 0 / nv_tool.baseQ.prod - alpha) % (nv_tool.baseBsk.q i).value := by
+  have hq : nv_tool.baseQ = nv_base := nv_tool_shape.2.1
+  refine gr_fast_floor_floor nv_tool (nv_c0 ++ nv_p2) #[#[9, 9, 9, 9], #[9, 9, 9, 9], #[9, 9, 9, 9]] (fun j => ([-1, 1363, 2134, -3839] : List Int).getD j 0)
+    (by rw [hq]; exact nv_base_wf) grw_baseBsk_wf grw_qToBsk_new (by decide +kernel) ?_ (by decide +kernel) ?_ (by decide +kernel) (by decide +kernel) ?_ ?_ ?_
+  · have h : ∀ i, i < nv_tool.baseQ.size + nv_tool.baseBsk.size → ((nv_c0 ++ nv_p2).getD i #[]).size = nv_tool.n := by decide +kernel
+    exact h
+  · have h : ∀ i, i < nv_tool.baseBsk.size → ((#[#[9, 9, 9, 9], #[9, 9, 9, 9], #[9, 9, 9, 9]] : RnsPoly).getD i #[]).size = nv_tool.n := by decide +kernel
+    exact h
+  · have h : ∀ i, i < nv_tool.baseBsk.size → WFOp (nv_tool.baseBsk.q i) (nv_tool.invProdQModBsk.getD i default) ∧
+        ((nv_tool.invProdQModBsk.getD i default).operand * nv_tool.baseQ.prod) % (nv_tool.baseBsk.q i).value = 1 := by decide +kernel
+    exact h
+  · have h : ∀ i, i < nv_tool.baseQ.size → ∀ j, j < nv_tool.n → ((nv_c0 ++ nv_p2).getD i #[]).getD j 0 < 2^64 ∧
+        ((((nv_c0 ++ nv_p2).getD i #[]).getD j 0 : Nat) : Int) ≡ ([-1, 1363, 2134, -3839] : List Int).getD j 0 [ZMOD (nv_tool.baseQ.q i).value] := by decide +kernel
+    exact fun i j hi hj => h i hi j hj
+  · have h : ∀ i, i < nv_tool.baseBsk.size → ∀ j, j < nv_tool.n →
+        ((nv_c0 ++ nv_p2).getD (nv_tool.baseQ.size + i) #[]).getD j 0 + (nv_tool.baseBsk.q i).value < 2^64 ∧
+        ((((nv_c0 ++ nv_p2).getD (nv_tool.baseQ.size + i) #[]).getD j 0 : Nat) : Int) ≡ ([-1, 1363, 2134, -3839] : List Int).getD j 0 [ZMOD (nv_tool.baseBsk.q i).value] := by
+      decide +kernel
+    exact fun i j hi hj => h i hi j hj
 
 end HC
